@@ -46,9 +46,10 @@ func vAlphabet(thorough bool) []vRule {
 		{"", "", "return"},
 		{"Esc", `a)|(?:b`, ""},
 		{"End", `\b\1\b`, "pop"},
+		{"é", `é`, ""},
 	}
 	if thorough {
-		a = append(a, vRule{"Q", `"[^"]*"|\\.<>&`, ""}, vRule{"2d", `\d`, ""}, vRule{"", "", "include:B"}, vRule{"PushB", `<`, "push:B"}, vRule{"PushZ", `z`, "push:Z"}, vRule{"", "", "include:Z"}, vRule{"é", `é`, ""})
+		a = append(a, vRule{"Q", `"[^"]*"|\\.<>&`, ""}, vRule{"2d", `\d`, ""}, vRule{"", "", "include:B"}, vRule{"PushB", `<`, "push:B"}, vRule{"PushZ", `z`, "push:Z"}, vRule{"", "", "include:Z"})
 	}
 	return a
 }
@@ -249,7 +250,7 @@ func newNoPanic(rules Rules) (def *StatefulDefinition, err error, panicked inter
 // matches start at offset 0 (the rulesOK invariant Next's proof assumes: C03, C04, C07).
 func TestVerif_C03C04C07_New(t *testing.T) {
 	res := &verifResult{Check: "lexer.New", Property: "C03 C04 C07", Exhaustive: true,
-		Bound: "all rule maps with states Root (1-2 rules over the full alphabet), optional A (1-3 rules over {Ident, ws, Close/pop, return}; thorough: also 1-2 over the full alphabet, plus optional B with 1 rule) over the rule alphabet of vAlphabet (plain / lower-case / underscore-initial names, metacharacter and unbalanced patterns, push, pop, include, return; thorough adds unknown targets, digit-initial and non-ASCII names); plus 6 rule maps with chains of includes over 3-4 states; include cycles excluded",
+		Bound: "all rule maps with states Root (1-2 rules over the full alphabet), optional A (1-3 rules over {Ident, ws, Close/pop, return}; thorough: also 1-2 over the full alphabet, plus optional B with 1 rule) over the rule alphabet of vAlphabet (plain / lower-case / underscore-initial names, metacharacter and unbalanced patterns, push, pop, include, return; a non-ASCII lower-case name; thorough adds unknown targets and digit-initial names); plus 6 rule maps with chains of includes over 3-4 states; include cycles excluded",
 		Rule: "distinct rule maps; non-trivial = accepted by New and containing an action, include or return"}
 	seen := map[string]bool{}
 	for _, states := range vFamilies(verifThorough()) {
